@@ -6,13 +6,13 @@ FUEL = 400000
 
 
 # ----------------------------------------------------------------------------------------- join family (5)
-def enc_join(variant, J, nocopy, T, inacc, icap, close_after, stop_at, prod, cons, oracle=()):
+def enc_join(variant, J, nocopy, T, inacc, icap, close_after, stop_at, prod, cons, oracle=(), capextra=0):
     ps, cs = [], []
     for d, n in prod:
         ps += [d, n]
     for h, p in cons:
         cs += [h, p]
-    return [5, variant, J, 1 if nocopy else 0, T, inacc, icap, close_after, stop_at, FUEL,
+    return [5, variant, J, 1 if nocopy else 0, T, inacc, icap, close_after, stop_at, FUEL, capextra,
             len(ps)] + ps + [len(cs)] + cs + [len(oracle)] + list(oracle)
 
 
@@ -82,9 +82,10 @@ def gen_join_scenario(rng, variant, tier, style=None):
             cons.append((rng.choice([0, 0, 10 * unit, Tm // 2, 2 * Tm]) if nocopy else 0,
                          rng.choice([0, 0, 20 * unit, Tm // 2, Tm, 4 * Tm])))
     close_after = rng.choice([2 * unit, 2 * Tm, 6 * Tm + 2 * unit])
-    enc = enc_join(variant, J, nocopy, T, inacc, icap, close_after, -1, prod, cons)
+    capextra = rng.choice([0, 0, 1, J, 2 * J]) if variant == 1 else 0
+    enc = enc_join(variant, J, nocopy, T, inacc, icap, close_after, -1, prod, cons, capextra=capextra)
     meta = {"variant": ["join-v2", "unite-v2", "join-v1"][variant], "J": J, "nocopy": nocopy, "T": T, "inaccuracy": inacc,
-            "interval": ivl, "divider": div, "icap": icap, "close_after": close_after, "prod": prod, "cons": cons, "style": style}
+            "interval": ivl, "divider": div, "icap": icap, "close_after": close_after, "prod": prod, "cons": cons, "style": style, "capextra": capextra}
     nontrivial = n >= 2
     return Scenario(enc, style, meta, nontrivial=nontrivial, version="v1" if v1 else "v2")
 
@@ -312,7 +313,7 @@ def monitor_join(kind):
         ins = inputs_of(m)
         allvals = [v for it in ins for v in it]
         outs = [o[2] for o in tr.outs]
-        key = "join:%s:%s" % (m["variant"], sc.enc[2:9])
+        key = "join:%s:%s" % (m["variant"], sc.enc[2:9] + sc.enc[10:11])
         fails = []
         prompt = not m["cons"]
         ocap = 1 if m["variant"] == "join-v1" else 1 + m["icap"]
@@ -338,6 +339,7 @@ def monitor_join(kind):
             ends = {it[-1] for it in ins if it}
             for o in outs:
                 if not o:
+                    fails.append("an empty output slice was produced (empty input slices must produce nothing)")
                     continue
                 if o[0] not in starts or o[-1] not in ends or o != list(range(o[0], o[-1] + 1)):
                     fails.append("output slice %s splits an input slice (inputs %s)" % (o, [it for it in ins if it]))
@@ -469,6 +471,14 @@ def monitor_limit(kind):
                 for j in range(min(Q, len(times), len(tr.puts))):
                     if times[j] != tr.puts[j] and m["icap"] == 0:
                         fails.append("element %d of the first batch was delayed: put at %d, delivered at %d" % (j + 1, tr.puts[j], times[j]))
+                        break
+                # no throttling below the rate: an element leaves as soon as it is there, its predecessor has left and the batch
+                # Quantity positions earlier started at least one Interval ago
+                for j in range(min(len(times), len(tr.puts))):
+                    bound = max(tr.puts[j], times[j - 1] if j else 0, times[j - Q] + I if j >= Q else 0)
+                    if times[j] > bound:
+                        fails.append("element %d held back: it was put at %d, its predecessor left at %d, element %d left at %s, yet it left only at %d"
+                                     % (j + 1, tr.puts[j], times[j - 1] if j else 0, j + 1 - Q, times[j - Q] if j >= Q else None, times[j]))
                         break
                 if m["upfront"]:
                     for j, t in enumerate(times):
